@@ -199,6 +199,19 @@ def run(ck, F, E):
     if dv is not None:
         calls = [c.callee for c in dv.calls()]
         ok = any("String as core::default::Default" in c for c in calls) and any("f64 as core::default::Default" in c for c in calls)
+        if not ok:
+            # spelled out: Value::String(Rc::new(String::new())) / Value::Number(0.0)
+            from lib import float_consts_deep
+            str_ok = num_ok = False
+            for (bb, i, pl, rv, sp) in aggregates(dv, "value::Value"):
+                e0 = dv.expr(rv["ops"][0]) if rv.get("ops") else None
+                if rv.get("variant") == "String" and e0 is not None and any(x[1].endswith("String::new") or "String as core::default::Default" in x[1]
+                                                                          for x in expr_calls(e0)):
+                    str_ok = True
+                if rv.get("variant") == "Number" and e0 is not None and float_consts_deep(dv, e0) in ({"0.0"}, {"0"}, {"0.0", "-0.0"} - {"-0.0"}):
+                    num_ok = True
+            ok = (str_ok or any("String as core::default::Default" in c for c in calls)) and \
+                (num_ok or any("f64 as core::default::Default" in c for c in calls))
         ck.require(ok, "C03:DEFAULT:values", "defaults", "defaults are String::default() / f64::default() by `$`",
                    "default_for_variable builds %s" % [c.split("::")[-3:] for c in calls], dv.span)
     das = F.const("arrays::DEFAULT_ARRAY_SIZE")
